@@ -30,6 +30,8 @@ func init() {
 	props["C09"] = &prop{gen: genC09, run: runC09}
 }
 
+const c09presetIdx = 999983 // op index used for the pattern of preset content
+
 // ------------------------------------------------------------------ generator
 
 // rough bookkeeping used ONLY to steer the generator towards interesting schedules (fill the ring,
@@ -117,7 +119,12 @@ func c09sizes(g *gen, s *c09steer) int {
 }
 
 func c09history(g *gen, kind string, req, cap, nops int, closes bool) {
-	s := &c09steer{cap: cap}
+	c09historyFrom(g, kind, req, cap, 0, nops, closes)
+}
+
+// c09historyFrom: as c09history, the ring already holding `buffered` unread bytes
+func c09historyFrom(g *gen, kind string, req, cap, buffered, nops int, closes bool) {
+	s := &c09steer{cap: cap, buf: buffered}
 	ops := make([]string, 0, nops)
 	for len(ops) < nops {
 		x := g.r.Intn(100)
@@ -215,6 +222,23 @@ func genC09(g *gen) {
 	for i := 0; i < n; i++ {
 		c := rawCaps[g.r.Intn(len(rawCaps))]
 		c09history(g, "file-raw", c, c, 10+g.r.Intn(50), g.r.Intn(4) != 0)
+	}
+	// 2b. the same histories started deep inside a long run: positions around 2^32, 2^33, 2^40 and 2^63 (the positions are
+	//     64-bit stream offsets, the ring index is their remainder), mostly on rings whose size does not divide 2^32
+	bases := []uint64{1<<32 - 1, 1 << 32, 1<<32 + 1, 1<<32 - 70, 1<<33 - 3, 3<<32 - 5, 1<<40 + 12345, 1 << 63, 1<<31 - 2, 1<<16 - 1}
+	n = g.pick(500, 8000)
+	for i := 0; i < n; i++ {
+		c := []int{3, 5, 7, 12, 13, 31, 100, 6, 4, 64}[g.r.Intn(10)]
+		if g.r.Intn(60) == 0 {
+			c = 12288 // 3 alignment units of the public constructor
+		}
+		base := bases[g.r.Intn(len(bases))] + uint64(g.r.Intn(3))
+		k := 1 + g.r.Intn(c)
+		kind := "mem-at"
+		if i%3 == 0 {
+			kind = "file-at"
+		}
+		c09historyFrom(g, fmt.Sprintf("%s@%d@%d", kind, base, k), c, c, k, 8+g.r.Intn(40), g.r.Intn(4) != 0)
 	}
 	// 3. the public constructors: NewSize(req) (4 KiB unit) …
 	n = g.pick(150, 2500)
@@ -555,7 +579,29 @@ func runC09(f []string) string {
 		defer os.Remove(path)
 		defer file.Close()
 	}
+	// <kind>@<rpos>@<k>: the ring starts at read position rpos with k unread pattern bytes (a state deep in a history)
+	if at := strings.Split(kind, "@"); len(at) == 3 {
+		base, err := strconv.ParseUint(at[1], 10, 64)
+		k := atoi(at[2])
+		if err != nil || k < 1 || k > req {
+			return "badcase"
+		}
+		content := make([]byte, k)
+		for j := range content {
+			content[j] = c09pat(salt, c09presetIdx, j)
+		}
+		switch at[0] {
+		case "mem-at":
+			c.r, c.w = pipe.VerifC09NewMemRawAt(req, base, content)
+		case "file-at":
+			c.r, c.w = pipe.VerifC09NewFileRawAt(req, file, base, content)
+		default:
+			return "badcase"
+		}
+		kind = "preset"
+	}
 	switch kind {
+	case "preset":
 	case "mem-raw":
 		c.r, c.w = pipe.VerifC09NewMemRaw(req)
 	case "file-raw":
